@@ -16,7 +16,9 @@ import (
 	"sort"
 	"strconv"
 	"strings"
+	"sync/atomic"
 	"testing"
+	"testing/cryptotest"
 	"testing/synctest"
 	"time"
 
@@ -145,6 +147,8 @@ func runC18(t *testing.T, sc *Scenario) Result {
 		return res
 	}
 	defer os.RemoveAll(dir)
+	c18RandBase = sc.Seed
+	c18BootNo.Store(0)
 	first := map[string]string{} // item -> identity first reported by a completed boot
 	firstBoot := map[string]int{}
 	var trace []string
@@ -269,7 +273,16 @@ func c18RunBoot(dir string, bs c18BootSpec) c18Report {
 	return c18RunBootEnv(dir, bs, nil)
 }
 
+// c18RandBase/c18BootNo: every boot process of a history draws its key material (host keys, certificates, the
+// sensor id) from a generator seeded with the scenario's seed and the boot's number in the history, so that a
+// violation that depends on the bytes of a generated key replays.
+var (
+	c18RandBase uint64
+	c18BootNo   atomic.Uint64
+)
+
 func c18RunBootEnv(dir string, bs c18BootSpec, extraEnv []string) c18Report {
+	extraEnv = append(extraEnv[:len(extraEnv):len(extraEnv)], fmt.Sprintf("VERIF_BOOT_RAND=%d", c18RandBase^(c18BootNo.Add(1)*0x9e3779b97f4a7c15)))
 	out, err := os.CreateTemp("", "htsim-c18-out-")
 	if err != nil {
 		return c18Report{Err: "infra: " + err.Error()}
@@ -352,6 +365,9 @@ func c18Boot(t *testing.T, emit func(interface{})) {
 		}
 	}
 	installSeams()
+	if v, err := strconv.ParseUint(os.Getenv("VERIF_BOOT_RAND"), 10, 64); err == nil {
+		cryptotest.SetGlobalRandom(t, v)
+	}
 	id := map[string]string{}
 	fail := func(msg string) {
 		emit(c18Report{T: "identity", Err: msg})
